@@ -41,8 +41,8 @@ M = [
     ('C05', 'raw-retention-off', 'pgpy/packet/fields.py', "        if self._hashed_raw is not None:\n            current", "        if False:\n            current"),
     ('C14', 'boolean-typo-back', 'pgpy/packet/subpackets/signature.py', "        self.bflag = bool(self.bytes_to_int(val))", "        self.bool = bool(self.bytes_to_int(val))"),
     ('C05', 'hash-unhashed-length-too', 'pgpy/pgp.py', "        hcontext += self._signature.subpackets.__hashbytearray__()\n", "        hcontext += self._signature.subpackets.__hashbytearray__() + self._signature.subpackets.__unhashbytearray__()[:2]\n"),
-    ('C06', 'unlock-finally-clear-removed', 'pgpy/pgp.py', "            for sk in itertools.chain([self], self.subkeys.values()):\n                sk._key.keymaterial.clear()\n", "            pass\n"),
-    ('C06', 'clear-only-primary', 'pgpy/pgp.py', "            for sk in itertools.chain([self], self.subkeys.values()):\n                sk._key.keymaterial.clear()\n", "            self._key.keymaterial.clear()\n"),
+    ('C06', 'unlock-finally-clear-removed', 'pgpy/pgp.py', "                if sk.is_protected:\n                    sk._key.keymaterial.clear()\n", "                pass\n"),
+    ('C06', 'clear-only-primary', 'pgpy/pgp.py', "                if sk.is_protected:\n                    sk._key.keymaterial.clear()\n", "                if sk.is_protected and sk is self:\n                    sk._key.keymaterial.clear()\n"),
     ('C06', 'sha1-check-skipped', 'pgpy/packet/fields.py', "        if self.s2k.usage == 254 and not pt[-20:] == hashlib.new('sha1', pt[:-20]).digest():", "        if False:"),
     ('C06', 'encrypt-keyblob-forgets-clear', 'pgpy/packet/fields.py', "        del pt\n        self.clear()\n", "        del pt\n"),
     ('C13', 'protect-iv-zero', 'pgpy/packet/fields.py', "        self.s2k.iv = enc_alg.gen_iv()\n", "        self.s2k.iv = bytearray(enc_alg.block_size // 8)\n"),
@@ -78,7 +78,7 @@ M = [
     ('C14', 'copy-skips-direct-signatures', 'pgpy/pgp.py', "            if sig.embedded:\n                # embedded signatures don't need to be explicitly copied\n                continue\n", "            if sig.embedded or sig.type == SignatureType.DirectlyOnKey:\n                continue\n"),
     ('C14', 'insort-replaces-equal', 'pgpy/types.py', "        i = bisect.bisect_left(self, item)\n        self.rotate(- i)\n        self.appendleft(item)", "        i = bisect.bisect_left(self, item)\n        if i < len(self) and not (item < self[i]):\n            self[i] = item\n            return\n        self.rotate(- i)\n        self.appendleft(item)"),
     ('C14', 'uid-copy-forward-order', 'pgpy/pgp.py', "        for sig in reversed(self._signatures):\n            uid |= copy.copy(sig)", "        for sig in self._signatures:\n            uid |= copy.copy(sig)"),
-    ('C14', 'uid-copy-drops-third-party-sigs', 'pgpy/pgp.py', "        for sig in self._signatures:\n            uid |= copy.copy(sig)\n        return uid", "        for sig in self._signatures:\n            if self.parent is None or sig.signer == self.parent.fingerprint.keyid:\n                uid |= copy.copy(sig)\n        return uid"),
+    ('C14', 'uid-copy-drops-third-party-sigs', 'pgpy/pgp.py', "        for sig in reversed(self._signatures):\n            uid |= copy.copy(sig)\n        return uid", "        for sig in reversed(self._signatures):\n            if self.parent is None or sig.signer == self.parent.fingerprint.keyid:\n                uid |= copy.copy(sig)\n        return uid"),
     ('C16', 'flags-subset-instead-of-intersection', 'pgpy/decorators.py', "                if self.flags & set(_key._get_key_flags(user)):", "                if self.flags <= set(_key._get_key_flags(user)):"),
     ('C16', 'subkey-used-but-primary-id-written', 'pgpy/pgp.py', "        sig = PGPSignature.new(sig_type, self.key_algorithm, hash_algo, self.fingerprint.keyid, created=prefs.pop('created', None))\n\n        return self._sign(subject, sig, **prefs)", "        sig = PGPSignature.new(sig_type, self.key_algorithm, hash_algo, (self.parent or self).fingerprint.keyid, created=prefs.pop('created', None))\n\n        return self._sign(subject, sig, **prefs)"),
     ('C16', 'decrypt-without-unlocked-condition', 'pgpy/pgp.py', "    @KeyAction(is_unlocked=True, is_public=False)\n    def decrypt(self, message):", "    @KeyAction(is_public=False)\n    def decrypt(self, message):"),
